@@ -106,3 +106,42 @@ def r_C12b(root):
     ob("C12", "C12.e", R, "RRELVisitor.visit_string_value / RRELNavigation.__repr__", "fixed names round-trip for %d of %d literals up to length 5" % (n_ok, len(words)), bad is None)
     if bad: out.append(Finding("C12", "C12.e", R, "RRELNavigation.__repr__", "fixed-name literal %s" % bad[0], bad[1] + ": the printed expression does not re-parse to an equivalent expression", witness="%s~a" % bad[0]))
     return inst, out
+
+def r_C12f(root):
+    """C12.f / C11.f  small RREL functions decided by evaluation (sa/pyeval.py):
+         RRELBrackets.__repr__          '(' + printed content + ')' whatever the content looks like (also when it starts and ends with a bracket);
+         RRELVisitor.visit_rrel_navigation  'fixed'~name -> (name, no consume, fixed) decided by the presence of a string_value child, never by the
+                                        child's text ('~'~name has the fixed name '~'); ~name -> (name, no consume, None); name -> (name, consume, None);
+         RRELSequence.start_locally / start_at_root   true iff some alternative starts there."""
+    out = []; inst = 0
+    t = load(root, R)
+    def run(q, env):
+        fn = find_i(root, R, q)
+        try: return ("ret", pyeval.run_block(fn.body, env))
+        except pyeval.Raised as r: return ("raise", r.cls)
+        except pyeval.Unsupported as u: raise AnalysisError("%s: outside the evaluated subset: %s" % (q, u))
+    for content in ("a", "a.b,c", "(a).(b)", "(a)", "(..)*.x"):
+        inst += 1
+        k, v = run("RRELBrackets.__repr__", {"self.seq": content})
+        ok = k == "ret" and v == "(" + content + ")"
+        ob("C12", "C12.f", R, "RRELBrackets.__repr__", "content %r -> %r" % (content, v), ok)
+        if not ok: out.append(Finding("C12", "C12.f", R, "RRELBrackets.__repr__", "content %r" % content, "a bracket group with content %s prints as %s, not as (%s): the printed expression groups differently when re-parsed (a following * binds to the last inner group only)" % (content, v, content), witness="((packages).(packages))*.classes"))
+    nav = pyeval.PyFn(lambda *a: ("nav",) + tuple(a))
+    for children, results, want in ((["~", "n"], {"string_value": ["~"]}, ("nav", "n", False, "~")), (["fix", "n"], {"string_value": ["fix"]}, ("nav", "n", False, "fix")), (["", "n"], {"string_value": [""]}, ("nav", "n", False, "")),
+                                    (["~", "n"], {}, ("nav", "n", False, None)), (["n"], {}, ("nav", "n", True, None))):
+        inst += 1
+        k, v = run("RRELVisitor.visit_rrel_navigation", {"children": list(children), "children.results": results, "node": {".kind": "node"}, "RRELNavigation": nav})
+        ok = k == "ret" and tuple(v) == want
+        for pr in ("C12", "C11"): ob(pr, "C12.f", R, "RRELVisitor.visit_rrel_navigation", "children %s%s -> %s" % (children, " with a string literal" if results else "", v), ok)
+        if not ok:
+            for pr in ("C12", "C11"): out.append(Finding(pr, "C12.f", R, "RRELVisitor.visit_rrel_navigation", "children %s%s" % (children, " (first child is a string literal)" if results else ""), "the navigation is built as %s, documented %s" % (v, want), witness="'~'~sections"))
+    for q in ("RRELSequence.start_locally", "RRELSequence.start_at_root"):
+        meth = q.split(".")[-1]
+        for flags in ((False, False), (True, False), (False, True), (False, False, True), ()):
+            inst += 1
+            paths = [{"." + meth: pyeval.PyFn(lambda f=f: f), ".start_locally": pyeval.PyFn(lambda f=f: f), ".start_at_root": pyeval.PyFn(lambda f=f: f)} for f in flags]
+            k, v = run(q, {"self.paths": paths})
+            ok = k == "ret" and bool(v) == any(flags)
+            ob("C11", "C12.f", R, q, "alternatives %s -> %s" % (list(flags), v), ok)
+            if not ok: out.append(Finding("C11", "C12.f", R, q, "alternatives start there: %s" % (list(flags),), "%s answers %s for alternatives %s; an expression starts %s iff one of its alternatives does" % (meth, v, list(flags), "locally" if "locally" in meth else "at the root"), witness="(~packages,..)*.funcs"))
+    return inst, out
